@@ -12,6 +12,7 @@ import Biogo.Proofs.ContCons
 import Biogo.Proofs.ContAln
 import Biogo.Proofs.ContAppend
 import Biogo.Proofs.ContSepWorld
+import Biogo.Proofs.ContModelObs
 import Biogo.Generated.Alphabets
 
 namespace Biogo.Properties.C07
@@ -477,5 +478,36 @@ theorem append_no_retain_history (cx : Ctx) (w : World) (hw : WorldWF w) (app : 
     (runOps cx (apply cx w app).1 later).objs[k]? = some o' ∧
     viewObj cx (runOps cx (apply cx w app).1 later).cells o' = viewObj cx (apply cx w app).1.cells o' :=
   untouched_all cx later _ (step_all cx w hw app).1 k o' hk' hnot
+
+/-! ### the model satisfies the declarative statements the executable laws stand for
+
+`Laws.RowEqColumnSpec`, `Laws.FrameSpec` (Proofs/ContLawsSound.lean) are the declarative
+statements that `lawRowEqColumn`, `lawFrame` are proved to imply of the implementation's
+observations (`C07_laws.c07_verdict_sound`).  Here they are proved of the model's own
+observations, for every reachable state: the same proposition is a theorem on the model's side
+and a sound executable check on the implementation's side. -/
+
+/-- **row_eq_column, observation level, every reachable state**: for every object of every state
+    a history reaches — column-stored alignment with or without qualities, multi with arbitrary
+    row offsets — `Rows()`/`Len()` agree with the rows and the span, and at every position of the
+    span entry `i` of `ColumnQL(pos, true)` / `Column(pos, true)` is what row `i` shows there
+    (`At`), the gap letter standing for rows that do not cover it (quality filter for
+    `alignment.QSeq.Column`); `Column(pos, false)` lists the covering rows' letters. -/
+theorem row_eq_column_reachable (cx : Ctx) (kind : String) (strand : Int) (rows : List SeqSpec) (ops : List Op) :
+    ∀ o ∈ (runOps cx (initWorld cx kind strand rows) ops).view cx, Laws.RowEqColumnSpec cx.gap cx.amb o :=
+  model_row_eq_column cx _ (reach_wf cx kind strand rows ops)
+
+/-- **append_no_retain / clone_deep, observation level**: after any operation on a well-formed
+    world every object it is not applied to is observed exactly as before (`mut` of a caller
+    buffer and `Clone` are applied to no object) -/
+theorem frame_on_observations (cx : Ctx) (w : World) (hw : WorldWF w) (op : Op) :
+    Laws.FrameSpec (w.view cx) ((apply cx w op).1.view cx) op.written :=
+  model_frame cx w hw op
+
+/-- `Clone`, observation level: the new object is observed exactly as the original -/
+theorem clone_equal_on_observations (cx : Ctx) (w : World) (hw : WorldWF w) (k : Nat) (o : Obj)
+    (hk : w.objs[k]? = some o) (hclonable : ∀ m, o ≠ .set m) :
+    ((apply cx w (.clone k)).1.view cx)[w.objs.length]? = (w.view cx)[k]? :=
+  model_clone_equal cx w hw k o hk hclonable
 
 end Biogo.Properties.C07
